@@ -218,6 +218,9 @@ func cmdCheck(args []string) {
 			}
 			p := &kfPair{kf: kf, res: r}
 			p.outside = &Obligation{Name: o.Name + "@outside-known-region", Kind: o.Kind, Guard: and(o.Guard, not(region)), Goal: o.Goal, Pos: o.Pos, Func: o.Func}
+			for _, cs := range o.Cases {
+				p.outside.Cases = append(p.outside.Cases, oblCase{Guard: and(cs.Guard, not(region)), Goal: cs.Goal})
+			}
 			p.inside = &Obligation{Name: o.Name + "@known-region", Kind: o.Kind, Guard: and(o.Guard, region), Goal: not(o.Goal), ExpectSat: true, Pos: o.Pos, Func: o.Func}
 			o.Result = "known-finding"
 			extra = append(extra, p.outside, p.inside)
